@@ -21,13 +21,21 @@ ShardOf(d) ==
   ELSE IF d.kind = "extra" THEN d.i % NShards
   ELSE IF d.kind = "nested" THEN (d.s1 + d.s2 + d.s3 + d.s4 + d.s5) % NShards
   ELSE IF d.kind = "split" THEN d.at % NShards
+  ELSE IF d.kind = "bytes" THEN d.i % NShards
   ELSE (d.subj + d.cs + SumSeqs(d.cb) + SumSeq(d.db)) % NShards
 
-Init == cas \in {d \in MsgFamFlat(MaxParts) \cup MsgFamPlural(MaxInner) \cup MsgFamExtra \cup MsgFamNested \cup MsgFamSplit :
+Init == cas \in {d \in MsgFamFlat(MaxParts) \cup MsgFamPlural(MaxInner) \cup MsgFamExtra \cup MsgFamNested \cup MsgFamSplit \cup MsgFamBytes :
                    ShardOf(d) = Shard}
 
 Meanings == <<"", "m", "verb">>
 Next == UNCHANGED cas
+
+\* text given as bytes: the placeholder string and the id key ARE the bytes
+BytesRecord(d) ==
+  LET b == MsgByteTexts[d.i] IN
+  [id |-> MsgFamId(d), parts |-> MsgFamBody(d), names |-> <<>>, phstr |-> "", key |-> "", keyb |-> b,
+   coll |-> FALSE, multi |-> FALSE, rep |-> FALSE, feat |-> "text-bytes",
+   idterms |-> << [meaning |-> "", term |-> MsgFpBytes(b)] >>]
 
 CaseRecord(d) ==
   LET body == MsgFamBody(d)
@@ -47,5 +55,5 @@ CaseRecord(d) ==
                   [meaning |-> ms[i],
                    term |-> MsgIdAbs([body |-> body, meaning |-> ms[i], desc |-> ""])]]]
 
-Export == PrintT(ToJson(CaseRecord(cas)))
+Export == PrintT(ToJson(IF cas.kind = "bytes" THEN BytesRecord(cas) ELSE CaseRecord(cas)))
 =============================================================================
